@@ -253,8 +253,29 @@ impl Prop for C13 {
             out.evaluations += 1;
             let bad = loop {
                 let fam = r.below(11);
-                let d = Dist::new(gen_type(&mut r, fam), 0.0, 0.0);
-                if d.validate().is_err() {
+                let mut dt = gen_type(&mut r, fam);
+                if r.chance(1, 2) {
+                    // one parameter replaced by a value no family admits there
+                    let x = *r.pick(&[f64::NAN, f64::NAN, f64::INFINITY, f64::NEG_INFINITY, -1.0, -0.0, 0.0, -f64::MIN_POSITIVE, 2.0, 1.0e308]);
+                    let first = r.chance(1, 2);
+                    dt = match dt {
+                        DistType::Uniform { low, high } => if first { DistType::Uniform { low: x, high } } else { DistType::Uniform { low, high: x } },
+                        DistType::Normal { mean, stdev } => if first { DistType::Normal { mean: x, stdev } } else { DistType::Normal { mean, stdev: x } },
+                        DistType::SkewNormal { location, scale, shape } => if first { DistType::SkewNormal { location, scale: x, shape } } else { DistType::SkewNormal { location, scale, shape: x } },
+                        DistType::LogNormal { mu, sigma } => if first { DistType::LogNormal { mu: x, sigma } } else { DistType::LogNormal { mu, sigma: x } },
+                        DistType::Binomial { trials, .. } => DistType::Binomial { trials, probability: x },
+                        DistType::Geometric { .. } => DistType::Geometric { probability: x },
+                        DistType::Pareto { scale, shape } => if first { DistType::Pareto { scale: x, shape } } else { DistType::Pareto { scale, shape: x } },
+                        DistType::Poisson { .. } => DistType::Poisson { lambda: x },
+                        DistType::Weibull { scale, shape } => if first { DistType::Weibull { scale: x, shape } } else { DistType::Weibull { scale, shape: x } },
+                        DistType::Gamma { scale, shape } => if first { DistType::Gamma { scale: x, shape } } else { DistType::Gamma { scale, shape: x } },
+                        DistType::Beta { alpha, beta } => if first { DistType::Beta { alpha: x, beta } } else { DistType::Beta { alpha, beta: x } },
+                    };
+                }
+                let d = Dist::new(dt, 0.0, 0.0);
+                // refused by validation, or not well-formed by the independent predicate of C12 (what
+                // validation says about the distribution alone is not taken for granted)
+                if d.validate().is_err() || crate::props::c12::wf_dist(&d).is_err() {
                     break d;
                 }
             };
@@ -296,7 +317,7 @@ impl Prop for C13 {
                         let (msg, loc) = take_panic();
                         out.violation(
                             format!("C13/accepted-machine-crashed-through-its-distribution/{}", panic_sig(&msg, &loc)),
-                            format!("machine validation accepted {bad:?} in position {place} although Dist::validate refuses it; running the machine: {msg} at {loc}"),
+                            format!("machine validation accepted {bad:?} in position {place} (Dist::validate: {:?}; independent well-formedness: {:?}); running the machine: {msg} at {loc}", bad.validate().is_ok(), crate::props::c12::wf_dist(&bad).is_ok()),
                             json!({"dist": format!("{bad:?}"), "position": place}),
                         );
                     }
